@@ -64,6 +64,37 @@ def prove(hyps, goal, timeout_s=60, tag=""):
     return Q.check(list(hyps) + [sx.not_(goal)], timeout_s, tag)
 
 
+def free_reals(assertions):
+    """free real-sorted constants of a list of assertions"""
+    seen = {}
+    stack = [a for a in assertions if isinstance(a, z3.ExprRef)]
+    visited = set()
+    while stack:
+        t = stack.pop()
+        i = t.get_id()
+        if i in visited:
+            continue
+        visited.add(i)
+        if z3.is_const(t) and t.decl().kind() == z3.Z3_OP_UNINTERPRETED and z3.is_real(t):
+            seen[str(t)] = t
+        else:
+            stack.extend(t.children())
+    return list(seen.values())
+
+
+def normalised_model(assertions, timeout_s=30, tag="normalise"):
+    """re-solve a satisfiable query for a replayable witness: every real input a multiple of 1/4 in [-8, 8] (exactly
+    representable in float32, so ties and strict inequalities survive the real float code and differences are not
+    vanishingly small).  Returns a model or None (then the raw model is used)."""
+    vs = free_reals(assertions)
+    extra = []
+    for v in vs:
+        k = z3.Int(f"nrm_{v}")
+        extra += [v * 4 == z3.ToReal(k), k >= -32, k <= 32]
+    verdict, m = Q.check(list(assertions) + extra, timeout_s, tag=tag)
+    return m if verdict == "sat" else None
+
+
 def jsonable(x):
     if isinstance(x, Fraction):
         return str(x) if x.denominator != 1 else int(x)
@@ -107,6 +138,8 @@ def unjson_num(x):
 
 
 def to_float(x):
+    if isinstance(x, dict):
+        return {k: to_float(v) for k, v in x.items()}
     x = unjson_num(x)
     if isinstance(x, list):
         return [to_float(y) for y in x]
